@@ -2632,6 +2632,13 @@ class AV:
                         if k == args[0]:
                             return v
                     return args[1] if len(args) > 1 else NONE
+            if m in ("index", "find", "rfind", "rindex", "count") and len(args) == 1 and args[0][0] == "c" and isinstance(args[0][1], str):
+                recv_s = self._ev(recv_node, fr)
+                if recv_s[0] == "c" and isinstance(recv_s[1], str):
+                    try:
+                        return C(getattr(recv_s[1], m)(args[0][1]))
+                    except ValueError:
+                        return ("raise", "ValueError")
             if m == "index" and len(args) == 1:
                 recv = self._ev(recv_node, fr)
                 if recv[0] == "list" and not any(i[0] in ("spread", "when") for i in recv[1]) and args[0][0] == "c" and all(i[0] == "c" for i in recv[1]):
